@@ -30,8 +30,8 @@ def cls(name, legs, names, keys, days, maxnow, maxcerts, probes, neg=False, unsa
 
 
 QUICK = [
-    cls("main", ALL_LEGS, ["a", "b"], ["k1", "k2"], [0, 1, 2], 1, 2, [0, 1, 2, 3, 4], budget=5000),
-    cls("edge", ALL_LEGS, ["a"], ["k1"], [0, 1, 1825, 1826], 1, 2, [0, 1, 2, 1824, 1825, 1826, 1827], neg=True, damage=ALL_DAMAGE, budget=5500),
+    cls("main", ALL_LEGS, ["a", "b"], ["k1", "k2"], [0, 1], 1, 2, [0, 1, 2, 3], budget=5000),
+    cls("edge", ALL_LEGS, ["a"], ["k1"], [0, 1, 1825, 1826], 0, 2, [0, 1, 2, 1824, 1825, 1826, 1827], neg=True, damage=ALL_DAMAGE, budget=5000),
     cls("names", ["dir", "stdin"], ["a", "x/y"], ["k1"], [1], 0, 1, [0, 1, 2], unsafe=["x/y"], budget=1500),
 ]
 THOROUGH = [
